@@ -25,6 +25,112 @@ class AnalysisError(Exception):
         self.msg = msg
 
 
+class _Canon(ast.NodeTransformer):
+    """Canonical form of two behaviour-neutral spelling choices, so that no rule can depend on them:
+      * `a > b` / `a >= b` (single comparison of call-free operands) is read as `b < a` / `b <= a`; in `==` / `!=` a constant
+        operand is put on the right;
+      * `if not c: A else: B` (else present, not an elif chain) is read as `if c: B else: A`.
+    Positions are kept (reports name the original line); report texts show the canonical spelling."""
+
+    def visit_Compare(self, node):
+        self.generic_visit(node)
+        if len(node.ops) == 1:
+            a, b, op = node.left, node.comparators[0], node.ops[0]
+            simple = not any(isinstance(x, (ast.Call, ast.NamedExpr, ast.Await, ast.Yield, ast.YieldFrom)) for e in (a, b) for x in ast.walk(e))
+            if simple and isinstance(op, (ast.Gt, ast.GtE)):
+                return ast.copy_location(ast.Compare(left=b, ops=[ast.Lt() if isinstance(op, ast.Gt) else ast.LtE()], comparators=[a]), node)
+            if simple and isinstance(op, (ast.Eq, ast.NotEq)) and isinstance(a, ast.Constant) and not isinstance(b, ast.Constant):
+                return ast.copy_location(ast.Compare(left=b, ops=[op], comparators=[a]), node)
+        return node
+
+    def visit_If(self, node):
+        self.generic_visit(node)
+        t = node.test
+        if isinstance(t, ast.UnaryOp) and isinstance(t.op, ast.Not) and node.orelse and \
+                not (len(node.orelse) == 1 and isinstance(node.orelse[0], ast.If)):
+            node.test, node.body, node.orelse = t.operand, node.orelse, node.body
+        return node
+
+
+_JUMPS = (ast.Return, ast.Raise, ast.Continue, ast.Break)
+
+
+def _canon_block(stmts, fnode):
+    """(a) no `else` after a jump: `if c: ..; return  else: B` is read as `if c: ..; return` followed by B;
+    (b) a local that is assigned once, from a call, and read exactly once, in the very next statement, before any other
+        call of that statement, is read as if the call were written in place (`_t = g(b); r = f(a, _t)` is `r = f(a, g(b))`)."""
+    out = []
+    for s in stmts:
+        for fld in ("body", "orelse", "finalbody"):
+            b = getattr(s, fld, None)
+            if isinstance(b, list) and b and isinstance(b[0], ast.stmt) and not isinstance(s, (ast.FunctionDef, ast.AsyncFunctionDef, ast.ClassDef)):
+                setattr(s, fld, _canon_block(b, fnode))
+        for h in getattr(s, "handlers", []) or []:
+            h.body = _canon_block(h.body, fnode)
+        if isinstance(s, ast.If) and s.orelse and s.body and isinstance(s.body[-1], _JUMPS):
+            tail = s.orelse
+            s.orelse = []
+            out.append(s)
+            out.extend(tail)
+        else:
+            out.append(s)
+    # (b) forward substitution of single-use temporaries
+    res = []
+    for s in out:
+        prev = res[-1] if res else None
+        if prev is not None and isinstance(prev, ast.Assign) and len(prev.targets) == 1 and isinstance(prev.targets[0], ast.Name) \
+                and isinstance(prev.value, ast.Call) and isinstance(s, (ast.Assign, ast.Expr, ast.Return, ast.AugAssign)) and getattr(s, "value", None) is not None:
+            name = prev.targets[0].id
+            info = fnode._name_counts.get(name)
+            if info == (1, 1):
+                uses = [n for n in ast.walk(s.value) if isinstance(n, ast.Name) and n.id == name and isinstance(n.ctx, ast.Load)]
+                if len(uses) == 1 and not any(isinstance(n, (ast.Lambda, ast.ListComp, ast.SetComp, ast.DictComp, ast.GeneratorExp)) for n in ast.walk(s.value)):
+                    u = uses[0]
+                    anc = set()
+                    # ancestors of the use inside s.value
+                    def find(n, path):
+                        if n is u:
+                            anc.update(id(x) for x in path)
+                            return True
+                        return any(find(c, path + [n]) for c in ast.iter_child_nodes(n))
+                    find(s.value, [])
+                    pos = (u.lineno, u.col_offset)
+                    before = [n for n in ast.walk(s.value) if isinstance(n, ast.Call) and id(n) not in anc
+                              and (getattr(n, "lineno", 0), getattr(n, "col_offset", 0)) < pos]
+                    if not before:
+                        class _Sub(ast.NodeTransformer):
+                            def visit_Name(self, n):
+                                return prev.value if n is u else n
+                        s.value = _Sub().visit(s.value)
+                        res.pop()
+        res.append(s)
+    return res
+
+
+def canonicalise(tree):
+    tree = _Canon().visit(tree)
+    ast.fix_missing_locations(tree)
+    for fn in [n for n in ast.walk(tree) if isinstance(n, (ast.FunctionDef, ast.AsyncFunctionDef))]:
+        counts = {}
+        nested = set()
+        for n in ast.walk(fn):
+            if n is not fn and isinstance(n, (ast.FunctionDef, ast.AsyncFunctionDef, ast.Lambda, ast.ClassDef)):
+                for m in ast.walk(n):
+                    if isinstance(m, ast.Name):
+                        nested.add(m.id)
+            if isinstance(n, (ast.Global, ast.Nonlocal)):
+                nested.update(n.names)
+        for n in ast.walk(fn):
+            if isinstance(n, ast.Name):
+                st, ld = counts.get(n.id, (0, 0))
+                counts[n.id] = (st + 1, ld) if isinstance(n.ctx, ast.Store) else (st, ld + 1)
+        fn._name_counts = {k: v for k, v in counts.items() if k not in nested}
+    for fn in [n for n in ast.walk(tree) if isinstance(n, (ast.FunctionDef, ast.AsyncFunctionDef))]:
+        fn.body = _canon_block(fn.body, fn)
+    ast.fix_missing_locations(tree)
+    return tree
+
+
 class Module:
     def __init__(self, name: str, relpath: str, source: str, is_pkg: bool):
         self.name = name
@@ -32,7 +138,7 @@ class Module:
         self.source = source
         self.is_pkg = is_pkg
         self.digest = hashlib.sha256(source.encode()).hexdigest()
-        self.tree = ast.parse(source, filename=relpath)
+        self.tree = canonicalise(ast.parse(source, filename=relpath))
         for parent in ast.walk(self.tree):
             for child in ast.iter_child_nodes(parent):
                 child._parent = parent  # type: ignore[attr-defined]
